@@ -393,6 +393,18 @@ def main_check(mod):
         problems.append({"kind": "model", "what": "model/extraction does not build", "detail": outm[-3000:]})
     pr_ok, pr_out, t_p = build_proofs(mod.THEOREM_FILE)
     thms = [t for t in theorems_in(mod.THEOREM_FILE)]
+    # further property-theorem files (same rules: only `exact` + Print Assumptions), e.g. the
+    # statements another group's model contributes to this property
+    extra_files = list(getattr(mod, "EXTRA_THEOREM_FILES", []))
+    for xf in extra_files:
+        ok_x, out_x, t_x = build_proofs(xf)
+        thms += [t for t in theorems_in(xf)]
+        t_p += t_x
+        if not ok_x:
+            pr_ok = False
+            pr_out = out_x
+        elif pr_ok:
+            pr_out += "\n" + out_x
     obligations = len(thms)
     discharged = obligations if pr_ok else 0
     assumptions = parse_assumptions(pr_out)
@@ -413,8 +425,8 @@ def main_check(mod):
     coqchk_out = None
     if tier == "thorough" and pr_ok:
         # independent re-check of the compiled property file and everything it depends on
-        modname = "Mdns." + mod.THEOREM_FILE[:-2].replace("/", ".")
-        rc, out = sh(["coqchk", "-o", "-silent", "-Q", ".", "Mdns", modname], cwd=COQ, timeout=3000)
+        modnames = ["Mdns." + f[:-2].replace("/", ".") for f in [mod.THEOREM_FILE] + extra_files]
+        rc, out = sh(["coqchk", "-o", "-silent", "-Q", ".", "Mdns"] + modnames, cwd=COQ, timeout=3000)
         coqchk_out = out[-1500:]
         if rc != 0:
             problems.append({"kind": "coqchk", "what": "coqchk rejects the compiled development", "detail": coqchk_out})
